@@ -132,7 +132,10 @@ M = {
         "    for key, value in from_study._storage.get_study_system_attrs(from_study._study_id).items():\n        to_study._storage.set_study_system_attr(to_study._study_id, key, value)\n", "", ["C09"]),
     "tpe-reads-trials-unsorted": ("optuna/storages/_cached_storage.py",
         "            trials = list(sorted(trials.values(), key=lambda t: t.number))", "            trials = list(sorted(trials.values(), key=lambda t: (t.state.value, t.number)))", ["C09"]),
-    # ---- C05 -------------------------------------------------------------------------------
+    # ---- C05 ---
+    "rdb-commit-trial-row-before-template-fields": ("optuna/storages/_rdb/storage.py",
+        "        session.flush()\n\n        if template_trial is not None:",
+        "        session.flush()\n        session.commit()\n\n        if template_trial is not None:", ["C05"]),----------------------------------------------------------------------------
     "file-unfix-torn-tail": ("optuna/storages/journal/_file.py",
         "            self._drop_unterminated_tail()\n", "", ["C05"]),
     "journal-ack-before-write": ("optuna/storages/journal/_storage.py",
